@@ -409,7 +409,7 @@ func cmdCheck(args []string) int {
 			case !firstW.Forced:
 				modelOnly++
 				violLines = append(violLines, fmt.Sprintf("VIOLATION property=%s replay=%s", id, p))
-				fmt.Printf("    violation %s (%s) in %s holds in the model; it needs environment choices a native run cannot force (short writes / random source / pool reuse), so it was not replayed natively: %s\n", v0.ID, v0.Kind, r.Cfg.Name, v0.Detail)
+				fmt.Printf("    violation %s (%s) in %s holds in the model; it needs environment choices a native run cannot force (short writes / random source / pool reuse / timer ticks of a background goroutine), so it was not replayed natively: %s\n", v0.ID, v0.Kind, r.Cfg.Name, v0.Detail)
 			default:
 				ob, _ := json.Marshal(lastOut)
 				inconclusive = append(inconclusive, fmt.Sprintf("%s: solver counterexample for %s did not reproduce natively (engine/stub mismatch?) witness=%s native=%s", r.Cfg.Name, v0.ID, p, ob))
